@@ -48,3 +48,35 @@ pub fn par_map<T: Send, R: Send>(items: Vec<T>, f: impl Fn(T) -> R + Sync) -> Ve
         hs.into_iter().map(|h| h.join().expect("compile thread panicked")).collect()
     })
 }
+
+/// Drive a thunk either through `CompiledSim::exhaustive` (all schedules) or through
+/// `fuzz_repro(tape)` (one schedule). `$thunk` must be an `async || { .. }` closure expression.
+#[macro_export]
+macro_rules! drive_sim {
+    ($compiled:expr, $tape:expr, $thunk:expr) => {{
+        match $tape {
+            None => $crate::proglevel::sim_guard(|| {
+                $compiled.exhaustive($thunk);
+            }),
+            Some(t) => $crate::proglevel::sim_guard(|| {
+                let mut th = $thunk;
+                $compiled.fuzz_repro(t.clone(), async |inst| {
+                    inst.run_with_scheduler_and_logger(std::io::sink(), th()).await;
+                })
+            }),
+        }
+    }};
+}
+
+/// Turn a simulator panic into the failure of a property body: harness-side panics (the thunk's
+/// own awaits) are harness errors, everything else is reported with the panic as signature.
+pub fn panic_fail(what: &str, p: &SimPanic) -> vcommon::Fail {
+    if p.harness {
+        vcommon::Fail::new("harness:thunk", format!("{} at {}", p.msg, p.loc))
+    } else {
+        vcommon::Fail::new(
+            format!("{what}:simulator-panics:{}", crate::util::squash(&p.msg)),
+            format!("{} at {}", p.msg, p.loc),
+        )
+    }
+}
